@@ -95,7 +95,8 @@ Definition agen_one (u : counts) (l : alut) (op : ir) : list LuaAst.stmt * alut 
   | IVariant t v a => aiis u l t (acall "__VARIANT" [ETable [FPos (LuaAst.EStr v); FPos (aexpand l a)]])
   | IIndex t a i =>
       if used t then ([SLocal [fmt_var t] [acall "__INDEX" [aexpand l a; aexpand l i]]], l) else ([], l)
-  | IExternal t e => ([SAssign [aexpand l t] [EVar e]], l)
+  | IExternal t e =>   (* a name that is a reserved word of Lua is read through _G (lua.rs lua_global) *)
+      ([SAssign [aexpand l t] [if is_lua_keyword e then LuaAst.EIndex (EVar "_G") (LuaAst.EStr e) else EVar e]], l)
   | ICall t f args => ([SLocal [aname l t] [LuaAst.ECall (aexpand l f) (map (aexpand l) args)]], l)
   | IAssert v => ([SCall (EVar "assert") [aexpand l v; LuaAst.EStr "Assert failed!"]], l)
   | IDefine t => if used t then ([SLocal [aname l t] [ENil]], l) else ([], l)
